@@ -68,3 +68,13 @@ func Gunzip(r io.Reader) (io.Reader, error) { return gzip.NewReader(r) }
 
 // Trunc converts a float to an int (NUM-KIND).
 func Trunc(x float64) int { return int(x) }
+
+// LineScanner: a line-per-record decoder that reads through a bufio.Scanner (SC-WHO).
+func LineScanner(r io.Reader) []string {
+	var out []string
+	sc := bufio.NewScanner(r)
+	for sc.Scan() {
+		out = append(out, sc.Text())
+	}
+	return out
+}
